@@ -1,8 +1,13 @@
 """C16 -- the encoder respects any level table it claims to satisfy.
 
-Spec: spec/LevelTables.tla (TLC choice machine: tiny configuration x one or two restricted keys x restriction
-kind x ordering pattern; design of the encoder's constraint handling; invariant DesignSound), reusing
-spec/SeqHeaderOps.tla for the sequence-header part; spec/LevelTablesTrace.tla judges recorded outcomes.
+Spec: spec/LevelTables.tla (TLC choice machine with three classes of level definitions:
+  "full"  tiny configuration x one or two restricted keys x restriction kind x ordering pattern;
+  "geom"  geometry configurations (frame / field DC-band heights dividing differently by slices_y) x picture coding
+          mode x source sampling (agreeing and disagreeing) x a synthetic column pinning one derived key;
+  "real"  the REAL level table x one feature set per level x every base video format x source sampling x picture
+          coding mode x a perturbation of one group -- admitted or not (the encoder must refuse what is not);
+design of the encoder's constraint handling; invariant DesignSound), reusing spec/SeqHeaderOps.tla for the
+sequence-header part; spec/LevelTablesTrace.tla judges recorded outcomes.
 
 G: every completed choice is installed as level 1 of the real library (LEVEL_CONSTRAINTS[:] = [column],
 LEVEL_SEQUENCE_RESTRICTIONS[1] = pattern; restored in `finally`, as tests/alternative_level_constraints.py
@@ -14,6 +19,7 @@ LevelTablesTrace.tla.  Alarm: produced and rejected.
 import io
 import os
 import random
+import time
 
 from .. import common, tlc, tlaval
 from . import c15
@@ -48,7 +54,7 @@ def make_codec_features(cfg):
         qm = {0: {"LL": 0}, 1: {"HL": 1, "LH": 1, "HH": 2}}
     return CodecFeatures(
         name=cfg["name"],
-        level=Levels(1),
+        level=Levels(cfg.get("level", 1)),
         profile=Profiles(cfg["profile"]),
         picture_coding_mode=PictureCodingModes(cfg["pcm"]),
         video_parameters=VideoParameters((k, cfg["vp"][k]) for k in c15.VP_KEYS),
@@ -65,8 +71,18 @@ def make_codec_features(cfg):
     )
 
 
-def make_pictures(cfg, seed):
-    """two pictures of random 8-bit samples with the coded dimensions (11.6.2), built without the library"""
+def cfg_label(cfg):
+    """display name of a configuration (the geometry / real ones are not named one by one in the spec)"""
+    vp = cfg["vp"]
+    if cfg["name"] == "geom":
+        return "geom_%dx%d_cd%d_p%d_d%d+%d_s%dx%d_pcm%d_ss%d" % (vp["frame_width"], vp["frame_height"], vp["color_diff_format_index"], cfg["profile"], cfg["dwt_depth"], cfg["dwt_depth_ho"], cfg["slices_x"], cfg["slices_y"], cfg["pcm"], vp["source_sampling"])  # fmt: skip
+    if cfg["name"] == "real":
+        return "real_level%d_%dx%d_cd%d_ss%d_pcm%d" % (cfg["level"], vp["frame_width"], vp["frame_height"], vp["color_diff_format_index"], vp["source_sampling"], cfg["pcm"])  # fmt: skip
+    return cfg["name"]
+
+
+def make_pictures(cfg, seed, npics=2):
+    """pictures of random 8-bit samples with the coded dimensions (11.6.2), built without the library"""
     vp = cfg["vp"]
     w, h = vp["frame_width"], vp["frame_height"]
     cw = w // 2 if vp["color_diff_format_index"] in (1, 2) else w
@@ -76,7 +92,7 @@ def make_pictures(cfg, seed):
         chh //= 2
     rnd = random.Random(seed)
     out = []
-    for n in range(2):
+    for n in range(npics):
         out.append(
             {
                 "Y": [[rnd.randrange(256) for _ in range(w)] for _ in range(h)],
@@ -133,19 +149,26 @@ def exec_case(job):
     if _KEYS is None:
         _KEYS = sorted(set(k for c in lc.LEVEL_CONSTRAINTS for k in c))
     cfg = case["cfg"]
+    klass = case.get("class", "full")
+    npics = case.get("npics", 2)
     restr = sorted((thaw(r) for r in case["restr"]), key=lambda r: r["key"])
     restr = [{"key": r["key"], "kind": r["kind"], "vs": {"any": bool(r["vs"]["any"]), "rs": sorted([list(x) for x in r["vs"]["rs"]])}} for r in restr]
-    ev = {"tid": tid, "ev": "table", "cfg": cfg["name"], "restr": restr, "pattern": case["pattern"], "design": case["design"],
+    ev = {"tid": tid, "ev": "table", "class": klass, "level": cfg.get("level", 1), "cfg": cfg_label(cfg), "restr": restr, "pattern": case["pattern"], "design": case["design"],
           "outcome": "", "exc": "", "accepted": False, "vexc": "", "vkey": "", "vvalue": -1, "observed": [], "units": []}  # fmt: skip
     saved_table = list(lc.LEVEL_CONSTRAINTS)
     saved_seq = dict(lc.LEVEL_SEQUENCE_RESTRICTIONS)
     try:
-        lc.LEVEL_CONSTRAINTS[:] = [make_column(restr)]
-        lc.LEVEL_SEQUENCE_RESTRICTIONS[Levels(1)] = lc.LevelSequenceRestrictions(
-            "synthetic (verification harness)", PATTERNS[case["pattern"]].replace("PIC", picture_symbol(cfg))
-        )
+        if klass == "real":
+            # the level definition is the REAL one of the tree under test: nothing is swapped
+            if restr or case["pattern"] != "real":
+                raise RuntimeError("real-table case with synthetic restrictions: %r" % (case,))
+        else:
+            lc.LEVEL_CONSTRAINTS[:] = [make_column(restr)]
+            lc.LEVEL_SEQUENCE_RESTRICTIONS[Levels(1)] = lc.LevelSequenceRestrictions(
+                "synthetic (verification harness)", PATTERNS[case["pattern"]].replace("PIC", picture_symbol(cfg))
+            )
         try:
-            seq = make_sequence(make_codec_features(cfg), make_pictures(cfg, tid))
+            seq = make_sequence(make_codec_features(cfg), make_pictures(cfg, tid, npics))
             f = io.BytesIO()
             autofill_and_serialise_stream(f, Stream(sequences=[seq]))
             ev["outcome"] = "produced"
